@@ -108,6 +108,8 @@ def replay(ctx, obj, path):
 def run(ctx):
     """returns the list of broken proof obligations (the caller reports them)"""
     broken = ctx.prove(PROPS)
+    if ctx.tier == "thorough":
+        broken += ctx.leanchecker(PROPS)
     drv = ctx.ensure_pplv("pplv_c16reb")
     h = ctx.compile_harness("c16_rows.cc")
     wd = os.path.join(BUILD, "run-%s-reb-%d" % (ctx.pid, os.getpid()))
